@@ -250,7 +250,7 @@ def run(prop, tier):
                 for (hname, hist, flags) in hs:
                     jobs.append((ci, spec, model, hname, hist, flags, rels))
                     # the same trace with every model forced on, and with the breakdown view on top of that (every fourth configuration)
-                    if ci % 4:
+                    if ci % 4 and tier != "deep":
                         continue
                     jobs.append((ci, spec, model, hname + " -a", hist, tuple(flags) + ("-a",), rels))
                     if "-b" not in flags:
